@@ -626,6 +626,15 @@ func (o *Oracle) checkRestoreReturn(c *Call, inc *Inc) {
 		return
 	}
 	w.stats.probe("user_restore_succeeded")
+	// "Restore is refused while a membership change is uncommitted": the same configuration change
+	// was pending on this server from before the call was made until it returned
+	if since := inc.cfgUncommittedSince; since != 0 && since < c.InvokeSeq {
+		_, cidx, latest, lidx := inc.r.VerifConfigurations()
+		w.violate("C20", "C20/restore-during-membership-change", "%s: Restore returned nil although its latest configuration %d {%s} has been uncommitted (committed index %d) since before the call was made",
+			inc.tag, lidx, idsOf(latest), cidx)
+	} else if since != 0 {
+		w.stats.probe("user_restore_returned_with_uncommitted_configuration_that_started_during_the_call")
+	}
 	found := false
 	for _, fc := range inc.fsm.calls {
 		if fc.Kind == "restore" && fc.State.Epoch == epoch && fc.Seq > c.InvokeSeq {
